@@ -8,7 +8,8 @@ RULE = ("pairs (c0, c1) with c1 in {omitted, equal copy, one-gate-type mutant, r
         "independent circuit over the same io names} for every 2-input 1..2-gate circuit and seeded random "
         "lint-clean blackbox-free circuits (constants, outputs that are inputs); startpoints in {default, all "
         "shared, one, random subset}, endpoints in {default, one (also an input), random subset}; every "
-        "consistent valuation of the miter is checked; non-trivial = at least one compared endpoint is a gate")
+        "consistent valuation of the miter is checked; non-trivial = at least one compared endpoint is a gate"
+        "; plus: revisions in which a name that is a primary input of one circuit is a multi-input gate of the other")
 BOUND = "circuits <= 9 nodes each, <= 5 startpoints each; all valuations; 4/16 hash seeds"
 
 
